@@ -16,7 +16,7 @@ class Fail:
 
 
 def run(oid, *, width, zconsts, build, check, make_case, max_paths=400, query_ms=20000, known=(), validate=None,
-        sample=None, reset=True, stop_on_first=True):
+        sample=None, reset=True, stop_on_first=True, allow_all_exc=False):
     """zconsts: {name: z3 const} symbolic inputs; build(): runs real code, returns any object;
     check(path, solver, out) -> iterable of Fail (solver holds the PC; checker may push/pop);
     make_case(model_values: {name: int|bool}, fail) -> replay case dict.
@@ -37,7 +37,14 @@ def run(oid, *, width, zconsts, build, check, make_case, max_paths=400, query_ms
 
     ex = E.explore(wrapped, max_paths=max_paths)
     nval = 0
+    nok = 0
+    excs = {}
     for path in ex:
+        if path.kind == "ok":
+            nok += 1
+        elif path.kind == "exc":
+            k = type(path.result).__name__ + ": " + str(path.result)[:80]
+            excs[k] = excs.get(k, 0) + 1
         if path.kind in ("unknown", "unsupported", "diverged"):
             continue
         s = E.new_solver(path.pc, query_ms)
@@ -97,6 +104,14 @@ def run(oid, *, width, zconsts, build, check, make_case, max_paths=400, query_ms
     res["paths"] = ex.paths
     res["validated"] = nval
     res["inconclusive"] += ex.inconclusive
+    res["ok_paths"] = nok
+    if excs:
+        res.setdefault("sample", {}) if isinstance(res.get("sample"), dict) else None
+        if isinstance(res.get("sample"), dict):
+            res["sample"]["exceptions_seen"] = excs
+    if nok == 0 and ex.paths > 0 and res["status"] == "holds" and not allow_all_exc:
+        # vacuity guard: the run never reached the assertion (every path raised)
+        res["inconclusive"].append("vacuous: every explored path raised before the assertion: " + "; ".join(list(excs)[:2]))
     if res["status"] == "holds" and res["inconclusive"]:
         res["status"] = "inconclusive"
         res["detail"] = res["inconclusive"][0]
